@@ -140,7 +140,7 @@ def shapes() -> list[tuple[str, list]]:
 def main() -> None:
     run = Run("C05", "translation_validation")
     run.forbid()
-    run.require_vo(["Ssb/EquivSound.v", "Lang/Inline.v", "Lang/InlineProofs.v", "Lang/MacroStatic.v", "Lang/InlineFree.v", "Lang/SrcSem.v"])
+    run.require_vo(["Ssb/EquivSound.v", "Lang/Inline.v", "Lang/InlineProofs.v", "Lang/MacroStatic.v", "Lang/InlineFree.v", "Lang/SrcSem.v", "Comp/MacroBuild.v", "Comp/MacroBuildProofs.v"])
     run.props("Props/C05.v")
     run.props("Props/C01.v")
     q = run.tier == "quick"
@@ -185,6 +185,9 @@ def main() -> None:
         seq = run_driver([[A("equiv"), srcm_side(small), ssb_side(sres["ops"])]], nproc=1)[0] if sres["ok"] else {"r": "n/a"}
         why = judge(small, sres, seq) or why
         run.fail(sig, why, {"case": name, "source": st, "original_source": print_prog(p), "compile": {k: v for k, v in sres.items() if k in ("ok", "err", "msg", "ops")}})
+    # K-build: Comp/MacroBuild.v against every invocation of ExplorerScriptMacro.build in these compilations
+    from kbuild import check_kbuild
+    check_kbuild(run, texts[: (260 if q else 3000)])
     # imports: directory layouts x lookup paths (see checks/c05_imports)
     from checks.c05_imports import run_imports
     run_imports(run, q)
